@@ -60,13 +60,14 @@ type Machine struct {
 	stack    []*frame
 	builders map[*Value]*Str // strings.Builder contents keyed by the builder's slot
 	// Hooks
-	OnCall   func(fn *ssa.Function, args []Value) (Value, bool) // intercept (e.g. stub a function); return handled
-	Warnings []Str
-	ext      map[string]ExtFn
-	ivs      map[string]*interval
-	derived  map[string]*Atom
-	usedExt  map[string]bool
-	Events   []Event
+	OnCall       func(fn *ssa.Function, args []Value) (Value, bool) // intercept (e.g. stub a function); return handled
+	Warnings     []Str
+	ext          map[string]ExtFn
+	ivs          map[string]*interval
+	derived      map[string]*Atom
+	usedExt      map[string]bool
+	mergoNoDeref bool
+	Events       []Event
 	// FactDefault lets a configuration pre-decide named facts (e.g. "streq:..."), bypassing forks.
 	Facts map[string]int
 	// FactPrefixDefault pre-decides string-equality facts by suffix (e.g. "==Plain").
